@@ -164,8 +164,8 @@ variable {α : Type} [Scalar α]
 /-- `kEpsilon = 0.0000000001` of `IntersectsRayInRange` -/
 @[inline] def kEps : α := lit 1 10000000000
 
-/-- `intersectsRayInRangeComponent` (aabb.go:210-228); returns (reject?, t_min', t_max') -/
-def slabComponent (origin dir tmin tmax boxMin boxMax : α) : Bool × α × α :=
+/-- the arithmetic of `intersectsRayInRangeComponent` (aabb.go:210-228) as written; returns (reject?, t_min', t_max') -/
+def slabArith (origin dir tmin tmax boxMin boxMax : α) : Bool × α × α :=
   let invD := ((1 : Nat) : α) / dir
   let t0 := (boxMin - origin) * invD
   let t1 := (boxMax - origin) * invD
@@ -174,6 +174,22 @@ def slabComponent (origin dir tmin tmax boxMin boxMax : α) : Bool × α × α :
   let tmin := if tmin < lo then lo else tmin
   let tmax := if hi < tmax then hi else tmax
   (decide (tmax ≤ tmin), tmin, tmax)
+
+/-- `intersectsRayInRangeComponent`, with the IEEE outcome of a ZERO direction component made explicit, so that
+    the real-number reading is faithful for axis-parallel rays too (over ℝ, `1/0` would read as `0`).
+    In Go `invD = 1/±0 = ±Inf`:
+      * origin strictly inside the slab: `t0, t1 = ∓Inf, ±Inf` — the range is left as it is;
+      * origin strictly outside on one side: `t0 = t1 = ±Inf` — one end of the range becomes infinite: reject;
+      * origin exactly on a face (`0·Inf = NaN`: accepted for `+0`, rejected for `-0`) or an inverted slab:
+        the arithmetic itself.
+    At `Float` all three branches equal `slabArith` bit-for-bit (for non-NaN ranges), which the correspondence
+    `c16.aabb.ray` checks — zero components of both signs and origins exactly on the widened face included. -/
+def slabComponent (origin dir tmin tmax boxMin boxMax : α) : Bool × α × α :=
+  if dir == ((0 : Nat) : α) then
+    if boxMin < origin && origin < boxMax then (decide (tmax ≤ tmin), tmin, tmax)
+    else if (origin < boxMin && origin < boxMax) || (boxMin < origin && boxMax < origin) then (true, tmin, tmax)
+    else slabArith origin dir tmin tmax boxMin boxMax
+  else slabArith origin dir tmin tmax boxMin boxMax
 
 /-- `AABB.IntersectsRayInRange` (aabb.go:189-208) -/
 def intersectsRayInRange (b : AABB α) (o d : V3 α) (mn mx : α) : Bool :=
